@@ -74,6 +74,17 @@ func abiConfigs(tier string) []abiCfg {
 			}
 		}
 	}
+	// hundreds of cells through the entry point (a block size of 64 ... 512 cells must not change which parameter / input
+	// set a cell gets): 300 and 600 cells with 3 parameter sets and 5 input sets (neither divides a power of two)
+	many := []int{300}
+	if tier == "thorough" {
+		many = []int{300, 600, 1300}
+	}
+	for _, c := range many {
+		for init := 0; init <= 1; init++ {
+			out = append(out, abiCfg{c, 3, 5, 2, init, 0, 0})
+		}
+	}
 	return out
 }
 
